@@ -103,7 +103,14 @@ def outcome_of(engine, text, options=None):
         else:
             st = engine(text)
     except E.YaqlParsingException as e:
-        return ser.ser_parse_error(e)
+        out = ser.ser_parse_error(e)
+        if not options:
+            # what else the exception object carries: a traceback of this
+            # parse only, no notes of anybody else
+            import traceback
+            out.append(['tb-frames', len(traceback.extract_tb(e.__traceback__)),
+                        'notes', len(getattr(e, '__notes__', ()) or ())])
+        return out
     except Exception as e:      # any other exception class is compared too
         return ['error!', type(e).__name__, str(e)]
     return ['ok', ser.ser_expr(st)]
@@ -116,14 +123,18 @@ def ref(config, text):
     k = (config, text)
     r = _refs.get(k)
     if r is None:
-        r = _refs[k] = core.fork_call(
-            lambda: _ref_chunk((config, [text])))[0][2]
+        res = _ref_chunk((config, [text]))[0]
+        r = _refs[k] = res[2]
+        _fetches[k] = res[3]
     return r
 
 
 def count_fetches(config, text):
     k = (config, text)
     n = _fetches.get(k)
+    if n is None:
+        ref(config, text)           # fills _fetches in a forked child
+        n = _fetches.get(k)
     if n is None:
         install_token_seam()
         cnt = [0]
@@ -262,7 +273,9 @@ def build_corpus(config, n, seed):
     texts = ['1 + 2', '$a.b(3)', '$', '1', "'x'", 'f()', '1 +', ')', '#',
              'a b', '[1, 2]', '$.a.b', "'abc' + 'abd'", "'abd' + 'abc'",
              '1 = 2', '$a != $b', '$x = 1 and $y != 2', "'a\\tb' = $s",
-             '$.a = $.b', 'not $a = $b', '[1 = 1, 2 != 3]']
+             '$.a = $.b', 'not $a = $b', '[1 = 1, 2 != 3]',
+             '$x + ' + '7' * 4400, '[' + '9' * 4500 + ', 1]', '1 +', '(2',
+             '[1,'] + [t for g in FOCUS_GROUPS for t in g]
     if config == 'delegates':
         texts += ['$(1)', '(f)(2, 3)']
     if config == 'custom':
@@ -312,16 +325,60 @@ def build_corpus(config, n, seed):
     seen = set()
     out = []
     for t in texts:
-        if t not in seen and len(t) < 200:
+        if t not in seen and (len(t) < 200 or t.count('7') > 4000 or
+                              t.count('9') > 4000):
             seen.add(t)
             out.append(t)
-    return out[:max(n, 24)]
+    return out[:max(n, 48)]
+
+
+def _ref_one(config, t):
+    global _fetch_counter
+    cnt = [0]
+    _fetch_counter = cnt
+    try:
+        o = outcome_of(make_engine(config), t)
+    finally:
+        _fetch_counter = None
+    return (config, t, o, cnt[0])
 
 
 def _ref_chunk(args):
+    """(config, text, outcome on a fresh engine, number of token fetches) -
+    every text in a forked child of its own: the parent process never parses
+    anything (it hands a pristine interpreter state to its workers), and
+    whatever process-global state one text's parse leaves behind cannot
+    reach the reference of the next."""
     config, texts = args
     core.import_yaql()
-    return [(config, t, outcome_of(make_engine(config), t)) for t in texts]
+    install_token_seam()
+    return [core.fork_call(lambda t=t: _ref_one(config, t)) for t in texts]
+
+
+def prepare_replay_case(case):
+    """Replay: the references of every text of the case (and of its prelude)
+    are computed before anything runs, from the still pristine process - as
+    in a batch, where they come from the table built before the workers are
+    forked.  A reference forked from a process whose global state an earlier
+    run has already damaged would share the damage and hide it."""
+    core.import_yaql()
+    want = {}
+    for c in [case] + list(case.get('prelude', [])):
+        for task in c.get('tasks', []):
+            for op in task:
+                if isinstance(op, (list, tuple)) and op and \
+                        isinstance(op[0], str):
+                    want.setdefault(c.get('config', 'default'), [])
+                    if op[0] not in want[c.get('config', 'default')]:
+                        want[c.get('config', 'default')].append(op[0])
+    jobs = []
+    for c, ts in want.items():
+        for i in range(0, len(ts), 6):
+            jobs.append((c, ts[i:i + 6]))
+    for res in core.fork_map(_ref_chunk, jobs):
+        for c, t, o, nf in res:
+            _refs[(c, t)] = o
+            _fetches[(c, t)] = nf
 
 
 def prepare(params, replay=False):
@@ -341,8 +398,9 @@ def prepare(params, replay=False):
         for i in range(0, len(ts), 6):
             jobs.append((c, ts[i:i + 6]))
     for res in core.fork_map(_ref_chunk, jobs):
-        for c, t, o in res:
+        for c, t, o, nf in res:
             _refs[(c, t)] = o
+            _fetches[(c, t)] = nf
     nvalid = sum(1 for o in _refs.values() if o[0] == 'ok')
     for c in CONFIGS:
         shared_engine(c)
@@ -389,6 +447,15 @@ def _unrank(idx, a, b):
     return out
 
 
+FOCUS_GROUPS = [
+    ['$x + ' + '7' * 4400, '[' + '9' * 4500 + ', 1]'],
+    ["'a\\tb' = $s", "'x\\ny' + 'p\\u0041q'", "'ab\\xZZ'", '"q\\"r" + `v\\`w`'],
+    ['1 = 2', '$a != $b', 'not $a = $b', '$x = 1 and $y != 2'],
+    ['1 +', '(2', '[1,', 'f(', '$.a.'],
+    ['true and false', 'null', '$a.b.c(d => 1)', '12.5 * 3'],
+]
+
+
 def gen_case(seeds, params, index):
     w = seeds.stream('workload')
     s = seeds.stream('schedule')
@@ -404,6 +471,17 @@ def gen_case(seeds, params, index):
                         'mode': 'enum', 'tasks': [[[a, None]], [[b, None]]],
                         'schedule': schedule}
             acc += n
+    if index % 16 == 7:
+        # focused: the same rare lexical feature in both threads, line-level
+        # pre-emption, single-switch positions swept over the short trace
+        config = w.choice(CONFIGS)
+        group = w.choice(FOCUS_GROUPS)
+        return {'config': config, 'flavour': 'parse', 'preempt': 'line',
+                'mode': 'focused', 'cold': w.random() < 0.5,
+                'tasks': [[[w.choice(group), None]], [[w.choice(group), None]]],
+                'sweep': 12, 'sweep_seed': seeds.sub('sweep'),
+                'same_thread_names': w.random() < 0.3,
+                'sched': {'policy': 'sequential'}}
     config = w.choice(CONFIGS)
     corpus = _corpus[config]
     r = w.random()
@@ -474,7 +552,8 @@ def gen_case(seeds, params, index):
             spec['write_picks'] = [[s.random(), s.randrange(1, 6)]
                                    for _ in range(s.randrange(1, 5))]
     return {'config': config, 'flavour': flavour, 'preempt': preempt,
-            'mode': 'sampled', 'tasks': tasks, 'sched': spec, 'cold': cold}
+            'mode': 'sampled', 'tasks': tasks, 'sched': spec, 'cold': cold,
+            'same_thread_names': w.random() < 0.3}
 
 
 # ---------------------------------------------------------------------------
@@ -500,6 +579,38 @@ def _tracer_files():
 
 
 def execute(case, stats):
+    """Focused cases sweep single-switch schedules over one short trace."""
+    if case.get('sweep'):
+        # (also on replay: the phases before the failing one are part of the
+        # history of the shared engine, so the whole sweep is repeated)
+        import random
+        # every phase derives its schedule from its own spec (sweep_seed);
+        # the recorded schedule of the failing phase is informational only
+        outer, case = case, dict(case)
+        case.pop('schedule', None)
+        probe_case = dict(case, sched={'policy': 'sequential'})
+        v = _execute_once(probe_case, core.Stats())
+        if v:
+            outer['schedule'] = probe_case.get('schedule', [])
+            return v
+        total = sum(q for _, q in probe_case.get('schedule', [])) or 1
+        r = random.Random(case.get('sweep_seed', 0))
+        for _ in range(case['sweep']):
+            c2 = dict(case)
+            c2.pop('sweep')
+            c2['sched'] = {'policy': 'pct', 'seed': r.randrange(1 << 30),
+                           'switch_at': [r.randrange(1, total + 1)]}
+            v = _execute_once(c2, stats)
+            stats.inc('sweep_phases')
+            if v:
+                outer['schedule'] = c2['schedule']
+                return v
+        outer['schedule'] = probe_case.get('schedule', [])
+        return []
+    return _execute_once(case, stats)
+
+
+def _execute_once(case, stats):
     import yaql
     from yaql.language import expressions as X
     install_token_seam()
@@ -525,6 +636,8 @@ def execute(case, stats):
             spec['switch_at_w'] = [
                 list(sites[int(r * len(sites)) % len(sites)]) + [n]
                 for r, n in spec.get('write_picks', [])]
+    if case.get('same_thread_names'):
+        kw['thread_name'] = 'worker'      # hosts name their pool threads alike
     baton = sched.Baton(sched_spec=spec,
                         schedule=case.get('schedule'), step_cap=400000,
                         on_switch=on_switch, **kw)
@@ -581,6 +694,10 @@ def execute(case, stats):
             if opt == 'lex':
                 continue
             exp = ref(config, text)
+            if (opt or flavour == 'eval') and exp and \
+                    isinstance(exp[-1], list) and \
+                    exp[-1][:1] == ['tb-frames']:
+                exp = exp[:-1]      # only compared for parses without options
             if got != exp:
                 kind = ('tree-vs-tree' if got[0] == 'ok' == exp[0] else
                         'error-vs-error' if got[0] != 'ok' != exp[0] else
@@ -665,6 +782,13 @@ def _eval_outcome(yaql, text):
 # ---------------------------------------------------------------------------
 
 def shrink_candidates(case):
+    if case.get('sweep'):
+        # does the failing schedule alone reproduce?  then shrink that
+        c = {k: v for k, v in case.items() if k not in ('sweep', 'shrink')}
+        if c.get('schedule'):
+            yield c
+        return
+
     def mk(**kw):
         c = {k: v for k, v in case.items() if k not in ('sched', 'shrink')}
         c.update(kw)
